@@ -5,6 +5,11 @@ import (
 	"fmt"
 	"os"
 	"strings"
+	"time"
+
+	"github.com/ozanh/ugo"
+
+	"verif/internal/canon"
 
 	"verif/internal/core"
 	"verif/internal/gen"
@@ -48,6 +53,74 @@ type c03case struct {
 	Wrapper int    `json:"wrapper"`
 }
 
+// c03priorSrcs: scripts whose run is cut short by Abort while a function called from inside a try statement is running (the
+// main function, or a function one level down, is in the middle of try / catch / finally at that moment).
+var c03priorSrcs = []string{
+	"global ABORT\nf := func() {\n  ABORT()\n  for {\n  }\n}\ntry {\n  f()\n} catch e {\n  return 1\n} finally {\n  x := 2\n}\nreturn 3",
+	"global ABORT\nf := func() {\n  ABORT()\n  for {\n  }\n}\ng := func() {\n  try {\n    throw 1\n  } catch e {\n    return f()\n  } finally {\n    x := 2\n  }\n}\nh := func() {\n  try {\n    return g()\n  } finally {\n    y := 1\n  }\n}\nreturn h()",
+	"global ABORT\nf := func() {\n  ABORT()\n  for {\n  }\n}\nfor i := 0; i < 2; i++ {\n  try {\n    try {\n      throw i\n    } finally {\n      f()\n    }\n  } catch e {\n  }\n}\nreturn 0",
+}
+
+var c03priorBC []*ugo.Bytecode
+var c03usedEvery int
+var c03usedOff bool // set after a hang or 20 reports: this worker makes no further used-VM runs
+var c03usedViol int
+
+// usedVM runs p on VMs whose previous run was abandoned inside try statements (then given the new Bytecode, as Eval, a
+// REPL or a host re-using its VM does) and compares with a new VM: try / catch / finally of this run must not be
+// affected by the try statements the previous run never left.
+func (m c03) usedVM(c *core.Ctx, p *Program) {
+	if c03priorBC == nil {
+		for _, src := range c03priorSrcs {
+			bc, err := ugo.Compile([]byte(src), ugo.CompilerOptions{})
+			if err != nil {
+				c.Inconclusive("C03 prior script does not compile: " + err.Error())
+				return
+			}
+			c03priorBC = append(c03priorBC, bc)
+		}
+	}
+	cr := compileProgram(p, -1)
+	if cr.err != nil || cr.panicv != "" {
+		return
+	}
+	fresh := runVM(cr.bc, nil, ugo.Map{"G": ugo.Int(3)}, false)
+	if fresh.Kind == "timeout" {
+		return
+	}
+	for pi, prior := range c03priorBC {
+		vm := ugo.NewVM(prior)
+		ab := &ugo.Function{Name: "ABORT", Value: func(...ugo.Object) (ugo.Object, error) {
+			vm.Abort()
+			return ugo.Undefined, nil
+		}}
+		if _, perr := vm.Run(ugo.Map{"ABORT": ab}); perr == nil {
+			c.Inconclusive("C03 prior run was not cut short")
+			continue
+		}
+		vm.SetBytecode(cr.bc)
+		rec := &canon.Recorder{}
+		used := canon.RunBytecode(cr.bc, canon.RunOpts{VM: vm, Globals: ugo.Map{"L": rec.Func(), "G": ugo.Int(3)}, LogOf: rec.String, Timeout: 60 * time.Second})
+		c.Count("used_vm_runs")
+		if used.Kind == "timeout" {
+			// the same script ended by itself on a new VM: on the used VM it does not. One report, then this worker stops
+			// making used-VM runs (every further one would wait for the watchdog too)
+			c03usedOff = true
+			c.Violation(fmt.Sprintf("C03|used-vm-hang|prior%d", pi), "on a VM whose previous run was aborted inside try statements a script that ends by itself on a new VM was still running after 60 s (the script takes microseconds; stopped by Abort, i.e. it was executing instructions)",
+				c02wit{Program: p, Why: fmt.Sprintf("used VM, prior %d: hang", pi), Ref: fresh})
+			return
+		}
+		if used.Key(false) != fresh.Key(false) {
+			if c03usedViol++; c03usedViol >= 20 {
+				c03usedOff = true
+			}
+			c.Violation(fmt.Sprintf("C03|used-vm|prior%d|%s", pi, progHash(p)), fmt.Sprintf("on a VM whose previous run was aborted inside try statements the script's try/catch/finally behave differently than on a new VM (new: %s %s | used: %s %s)", fresh.Kind, trunc(fresh.Log, 80), used.Kind, trunc(used.Log, 80)),
+				c02wit{Program: p, Why: fmt.Sprintf("used VM, prior %d", pi), VM: used, Ref: fresh})
+			return
+		}
+	}
+}
+
 func (m c03) one(c *core.Ctx, stmts []*gen.TNode, hist []int, wrapper int, sample bool) {
 	src, exits := gen.RenderTry(stmts, hist, wrapper)
 	p := &Program{Src: src, Tags: []string{fmt.Sprintf("history=%v wrapper=%d", hist, wrapper)}}
@@ -57,6 +130,9 @@ func (m c03) one(c *core.Ctx, stmts []*gen.TNode, hist []int, wrapper int, sampl
 	ok, r := checkAgainstRef(c, "C03", p, nil, 100000)
 	if !ok {
 		return
+	}
+	if c03usedEvery++; c03usedEvery%5 == 0 && !c03usedOff {
+		m.usedVM(c, p)
 	}
 	for k, v := range exits {
 		c.CountN("exit."+k, int64(v))
